@@ -111,13 +111,18 @@ def replay (w : W) : List BufOut → W
   | .style s :: rest => replay (w.setStyle s) rest
 
 /-- `LeftAlignWriter::finish` / `RightAlignWriter::finish`: consumes the alignment layer and gives
-back the writer below it -/
+back the writer below it. In Rust `finish` exists only on the two alignment writers; here it is
+the identity on the other shapes, which it never meets: every theorem instantiates the inner
+encoder of `chunkEncode` with piece feeding / `encodeNodes`, and `feed_left`, `feed_right`,
+`feed_maxW` (WritersLemmas2) prove that these hand back the layer they were given. `chunkEncode`
+with an arbitrary, shape-breaking `enc` is outside every statement. -/
 def W.finish : W → W
   | .left tf f inner => inner.writeFills f tf
   | .right tf f inner buf => replay (inner.writeFills f tf) buf.reverse
   | w => w
 
-/-- dropping a `MaxWidthWriter` at the end of its scope gives back the borrowed writer -/
+/-- dropping a `MaxWidthWriter` at the end of its scope gives back the borrowed writer (identity on
+other shapes, never met — see `W.finish`) -/
 def W.dropMax : W → W
   | .maxW _ inner => inner
   | w => w
